@@ -6,9 +6,10 @@ import itertools
 from harness.core import Rng, gz, glist, gbool, Dec
 
 PID = "C19"
-VO = ["theories/Misc/Lifecycle.vo", "theories/Misc/Lifecycle_proofs.vo", "theories/Base/Flat.vo"]
+VO = ["theories/Misc/Lifecycle.vo", "theories/Misc/Lifecycle_proofs.vo", "theories/Base/Flat.vo",
+      "theories/Misc/LifecycleSrc.vo", "theories/Misc/LifecycleSrc_proofs.vo"]
 PROPS_FILES = ["props/C19.v"]
-TRANSLATORS = []
+TRANSLATORS = ["t_lifecycle"]
 REQUIRES = ["From FL Require Import Num Flat Lifecycle."]
 SHARD = 40
 CHUNK = 1
@@ -25,16 +26,27 @@ LEVEL_TEXT = ("Proof (Coq): one state machine per estimator family carrying exac
               "ExponentiatedGradient with nu given); predict is pure, pickle is faithful, clone is fresh. "
               "ExponentiatedGradient with nu=None: _partial (everything but nu; model equal when the first fit "
               "computed the same nu) + _refuted (fit overwrites nu; the model becomes history dependent). "
-              "Tie to the code: the same step functions evaluated on the free training function against the real "
-              "estimators on ALL call histories up to length 3 (quick) / 4 (thorough) + Fit D; Predict.")
+              "Tie to the code: (a) translators/t_lifecycle.py regenerates the life-cycle switches from the source "
+              "(per estimator: every path of fit returns self, constructor attributes written, attributes read "
+              "before this call assigned them, in-place mutated containers; Moment.load_data latch; who loads the "
+              "moments; adversarial re-initialisation tables; user module used itself; .eval()/.train() before the "
+              "forward passes) and C19_source_tie states they equal the values the model was written from, "
+              "C19_source_step_* that the machines determined by them are the machines of the theorems, "
+              "C19_*_characterised that the property holds for exactly these switch values; (b) the same step "
+              "functions evaluated on the free training function against the real estimators on ALL call "
+              "histories up to length 3 (quick) / 4 (thorough) + Fit D; Predict.")
 LEVEL_NOTE = ("Trusted: Coq kernel + vm_compute; the harness (history runner, fingerprints, reference fits); the "
-              "state machines are hand-written models of fit/predict/clone/pickle, tied by the exhaustive "
-              "correspondence run only (no translator: there is no pure kernel to regenerate). Training itself is "
+              "state machines are hand-written models of fit/predict/clone/pickle; their switches are regenerated "
+              "from the source by translators/t_lifecycle.py (an abstract execution of fit: definite assignment, "
+              "branches intersected, loops may run zero times, helper methods of the same class entered at the "
+              "point of reference; calls into sklearn / other classes are opaque), the rest is tied by the "
+              "exhaustive correspondence run. Training itself is "
               "abstract: determinism of the learners used (ExactLearner, LogisticRegression/lbfgs, torch CPU with "
               "one thread and a fixed random_state) is an assumption that the run checks (fresh fit == fresh fit).")
 TECHNIQUE = "Coq proof over life-cycle state machines + exhaustive differential run over call histories"
 TRUSTED = ["Coq 8.16.1 kernel and vm_compute", "harness/props/c19.py, harness/props/_c19_run.py (history runner, "
-           "fingerprints, comparison)", "hand-written state machines in Lifecycle.v (tied by correspondence only)",
+           "fingerprints, comparison)", "hand-written state machines in Lifecycle.v (switches tied by translators/t_lifecycle.py + "
+           "C19_source_tie, behaviour by correspondence)", "translators/t_lifecycle.py (ast decoding)",
            "sklearn.base.clone / pickle semantics (modelled)", "no axioms (Print Assumptions: closed)"]
 ASSUMPTIONS = ["the wrapped learner is deterministic (ExactLearner, LogisticRegression, seeded torch on one thread)",
                "D1, D2 have the same schema (CorrelationRemover rejects a refit with another width: modelled, "
